@@ -42,7 +42,7 @@ package pfcp
 //@ func (n *LocalNode) NewSess(rSeid uint64, qlen int) (s *Sess)
 //@   requires n != nil && lnodeWF(n)
 //@   ensures [fresh]  fresh(s) && s.RemoteID == rSeid && s.qlen == qlen
-//@   ensures [maps]   fresh(s.PDRIDs) && fresh(s.FARIDs) && fresh(s.QERIDs) && fresh(s.URRIDs) && fresh(s.BARIDs) && fresh(s.q)
+//@   ensures [maps]   fresh(s.PDRIDs) && fresh(s.FARIDs) && fresh(s.QERIDs) && fresh(s.URRIDs) && fresh(s.BARIDs) && fresh(s.q) && s.FARIDs != s.QERIDs
 //@   ensures [empty]  len(s.PDRIDs) == 0 && len(s.FARIDs) == 0 && len(s.QERIDs) == 0 && len(s.URRIDs) == 0 && len(s.BARIDs) == 0 && len(s.q) == 0
 //@   ensures [id]     s.LocalID != 0 && (forall id uint64 :: id == s.LocalID ==> !old(live(n, id))) && live(n, s.LocalID) && n.sess[s.LocalID-1] == s
 //@   ensures [others] forall id uint64 :: id != s.LocalID ==> (live(n, id) == old(live(n, id))) && (old(live(n, id)) ==> n.sess[id-1] == old(n.sess[id-1]))
@@ -75,32 +75,41 @@ package pfcp
 //@      (forall id uint32 :: id in s.URRIDs ==> RuleKey(s.LocalID, 4, uint64(id)) in CREATED) &&
 //@      (forall id uint8 :: id in s.BARIDs ==> RuleKey(s.LocalID, 5, uint64(id)) in CREATED)
 
+// qWF(s): every queue of the session is a distinct, open channel whose length is within its capacity.
+//@ pred qWF(s *Sess) = s.q != nil && s.qlen >= 0 &&
+//@      (forall p uint16 :: p in s.q ==> s.q[p] != nil && !closed(s.q[p]) && 0 <= len(s.q[p]) && len(s.q[p]) <= cap(s.q[p])) &&
+//@      (forall p1 uint16; p2 uint16 :: p1 in s.q && p2 in s.q && p1 != p2 ==> s.q[p1] != s.q[p2])
+
+// sessOK(s): everything the rule methods and Close need from a live session.  Opaque: callers carry it as one
+// fact from call to call; its definition is revealed only inside the functions that establish or use its parts.
+//@ opaque pred sessOK(s *Sess) = sessWF(s) && book(s) && qWF(s)
+
 //@ func (s *Sess) CreateFAR(req *ie.IE) (err error)
-//@   requires sessWF(s) && book(s) && req != nil
-//@   ensures [book]  book(s)
-//@   ensures [wf]    sessWF(s)
+//@   requires sessOK(s) && req != nil
+//@   ensures [ok]    sessOK(s)
 //@   ensures [rec]   ok(req.FARID()) ==> val(req.FARID()) in s.FARIDs
 //@   ensures [mono]  forall id uint32 :: id in old(s.FARIDs) ==> id in s.FARIDs
 //@   ensures [isol]  forall k RuleKey :: k.seid != s.LocalID ==> ((k in DP) == (k in old(DP)))
 //@   ensures [sup]   forall k RuleKey :: k in old(DP) ==> k in DP
 //@   ensures [noid]  !ok(req.FARID()) ==> err != nil && DP == old(DP) && CREATED == old(CREATED)
 //@   modifies s.FARIDs[_], DP, CREATED
+//@   reveal sessOK
 //@   serves C01 C05 C07
 //@   at call CreateFAR:
 //@     assert [seid]     arg0 == s.LocalID && arg1 == req
 //@     assert [recorded] val(req.FARID()) in s.FARIDs
 
 //@ func (s *Sess) UpdateFAR(req *ie.IE) (err error)
-//@   requires sessWF(s) && book(s) && req != nil
+//@   requires sessOK(s) && req != nil
 //@   modifies nothing
+//@   reveal sessOK
 //@   serves C01 C05 C07
 //@   at call UpdateFAR:
 //@     assert [seid] arg0 == s.LocalID && arg1 == req
 
 //@ func (s *Sess) RemoveFAR(req *ie.IE) (err error)
-//@   requires sessWF(s) && book(s) && req != nil
-//@   ensures [book]  book(s)
-//@   ensures [wf]    sessWF(s)
+//@   requires sessOK(s) && req != nil
+//@   ensures [ok]    sessOK(s)
 //@   ensures [gone]  ok(req.FARID()) && val(req.FARID()) in old(s.FARIDs) ==> !(RuleKey(s.LocalID, 2, uint64(val(req.FARID()))) in DP)
 //@   ensures [sub]   forall k RuleKey :: k in DP ==> k in old(DP)
 //@   ensures [isol]  forall k RuleKey :: k.seid != s.LocalID ==> ((k in DP) == (k in old(DP)))
@@ -108,36 +117,37 @@ package pfcp
 //@   ensures [del]   err == nil ==> !(val(req.FARID()) in s.FARIDs)
 //@   ensures [keep]  err != nil && ok(req.FARID()) ==> (forall id uint32 :: id in old(s.FARIDs) ==> id in s.FARIDs)
 //@   modifies s.FARIDs[_], DP
+//@   reveal sessOK
 //@   serves C01 C05 C07
 //@   at call RemoveFAR:
 //@     assert [seid] arg0 == s.LocalID && arg1 == req
 
 //@ func (s *Sess) CreateQER(req *ie.IE) (err error)
-//@   requires sessWF(s) && book(s) && req != nil
-//@   ensures [book]  book(s)
-//@   ensures [wf]    sessWF(s)
+//@   requires sessOK(s) && req != nil
+//@   ensures [ok]    sessOK(s)
 //@   ensures [rec]   ok(req.QERID()) ==> val(req.QERID()) in s.QERIDs
 //@   ensures [mono]  forall id uint32 :: id in old(s.QERIDs) ==> id in s.QERIDs
 //@   ensures [isol]  forall k RuleKey :: k.seid != s.LocalID ==> ((k in DP) == (k in old(DP)))
 //@   ensures [sup]   forall k RuleKey :: k in old(DP) ==> k in DP
 //@   ensures [noid]  !ok(req.QERID()) ==> err != nil && DP == old(DP) && CREATED == old(CREATED)
 //@   modifies s.QERIDs[_], DP, CREATED
+//@   reveal sessOK
 //@   serves C01 C05 C07
 //@   at call CreateQER:
 //@     assert [seid]     arg0 == s.LocalID && arg1 == req
 //@     assert [recorded] val(req.QERID()) in s.QERIDs
 
 //@ func (s *Sess) UpdateQER(req *ie.IE) (err error)
-//@   requires sessWF(s) && book(s) && req != nil
+//@   requires sessOK(s) && req != nil
 //@   modifies nothing
+//@   reveal sessOK
 //@   serves C01 C05 C07
 //@   at call UpdateQER:
 //@     assert [seid] arg0 == s.LocalID && arg1 == req
 
 //@ func (s *Sess) RemoveQER(req *ie.IE) (err error)
-//@   requires sessWF(s) && book(s) && req != nil
-//@   ensures [book]  book(s)
-//@   ensures [wf]    sessWF(s)
+//@   requires sessOK(s) && req != nil
+//@   ensures [ok]    sessOK(s)
 //@   ensures [gone]  ok(req.QERID()) && val(req.QERID()) in old(s.QERIDs) ==> !(RuleKey(s.LocalID, 3, uint64(val(req.QERID()))) in DP)
 //@   ensures [sub]   forall k RuleKey :: k in DP ==> k in old(DP)
 //@   ensures [isol]  forall k RuleKey :: k.seid != s.LocalID ==> ((k in DP) == (k in old(DP)))
@@ -145,36 +155,37 @@ package pfcp
 //@   ensures [del]   err == nil ==> !(val(req.QERID()) in s.QERIDs)
 //@   ensures [keep]  err != nil && ok(req.QERID()) ==> (forall id uint32 :: id in old(s.QERIDs) ==> id in s.QERIDs)
 //@   modifies s.QERIDs[_], DP
+//@   reveal sessOK
 //@   serves C01 C05 C07
 //@   at call RemoveQER:
 //@     assert [seid] arg0 == s.LocalID && arg1 == req
 
 //@ func (s *Sess) CreateBAR(req *ie.IE) (err error)
-//@   requires sessWF(s) && book(s) && req != nil
-//@   ensures [book]  book(s)
-//@   ensures [wf]    sessWF(s)
+//@   requires sessOK(s) && req != nil
+//@   ensures [ok]    sessOK(s)
 //@   ensures [rec]   ok(req.BARID()) ==> val(req.BARID()) in s.BARIDs
 //@   ensures [mono]  forall id uint8 :: id in old(s.BARIDs) ==> id in s.BARIDs
 //@   ensures [isol]  forall k RuleKey :: k.seid != s.LocalID ==> ((k in DP) == (k in old(DP)))
 //@   ensures [sup]   forall k RuleKey :: k in old(DP) ==> k in DP
 //@   ensures [noid]  !ok(req.BARID()) ==> err != nil && DP == old(DP) && CREATED == old(CREATED)
 //@   modifies s.BARIDs[_], DP, CREATED
+//@   reveal sessOK
 //@   serves C01 C05 C07
 //@   at call CreateBAR:
 //@     assert [seid]     arg0 == s.LocalID && arg1 == req
 //@     assert [recorded] val(req.BARID()) in s.BARIDs
 
 //@ func (s *Sess) UpdateBAR(req *ie.IE) (err error)
-//@   requires sessWF(s) && book(s) && req != nil
+//@   requires sessOK(s) && req != nil
 //@   modifies nothing
+//@   reveal sessOK
 //@   serves C01 C05 C07
 //@   at call UpdateBAR:
 //@     assert [seid] arg0 == s.LocalID && arg1 == req
 
 //@ func (s *Sess) RemoveBAR(req *ie.IE) (err error)
-//@   requires sessWF(s) && book(s) && req != nil
-//@   ensures [book]  book(s)
-//@   ensures [wf]    sessWF(s)
+//@   requires sessOK(s) && req != nil
+//@   ensures [ok]    sessOK(s)
 //@   ensures [gone]  ok(req.BARID()) && val(req.BARID()) in old(s.BARIDs) ==> !(RuleKey(s.LocalID, 5, uint64(val(req.BARID()))) in DP)
 //@   ensures [sub]   forall k RuleKey :: k in DP ==> k in old(DP)
 //@   ensures [isol]  forall k RuleKey :: k.seid != s.LocalID ==> ((k in DP) == (k in old(DP)))
@@ -182,6 +193,7 @@ package pfcp
 //@   ensures [del]   err == nil ==> !(val(req.BARID()) in s.BARIDs)
 //@   ensures [keep]  err != nil && ok(req.BARID()) ==> (forall id uint8 :: id in old(s.BARIDs) ==> id in s.BARIDs)
 //@   modifies s.BARIDs[_], DP
+//@   reveal sessOK
 //@   serves C01 C05 C07
 //@   at call RemoveBAR:
 //@     assert [seid] arg0 == s.LocalID && arg1 == req
@@ -193,9 +205,8 @@ package pfcp
 //@ pred ieWF(req *ie.IE) = req != nil && (forall j int :: 0 <= j && j < len(req.ChildIEs) ==> req.ChildIEs[j] != nil)
 
 //@ func (s *Sess) CreateURR(req *ie.IE) (err error)
-//@   requires sessWF(s) && book(s) && ieWF(req)
-//@   ensures [book]  book(s)
-//@   ensures [wf]    sessWF(s)
+//@   requires sessOK(s) && ieWF(req)
+//@   ensures [ok]    sessOK(s)
 //@   ensures [rec]   ok(req.URRID()) ==> val(req.URRID()) in s.URRIDs
 //@   ensures [mono]  forall id uint32 :: id in old(s.URRIDs) ==> id in s.URRIDs
 //@   ensures [isol]  forall k RuleKey :: k.seid != s.LocalID ==> ((k in DP) == (k in old(DP)))
@@ -206,6 +217,7 @@ package pfcp
 //@   ensures [method] ok(req.URRID()) ==> s.URRIDs[val(req.URRID())].VOLUM == req.HasVOLUM() &&
 //@                     s.URRIDs[val(req.URRID())].DURAT == req.HasDURAT() && s.URRIDs[val(req.URRID())].EVENT == req.HasEVENT()
 //@   modifies s.URRIDs[_], DP, CREATED
+//@   reveal sessOK
 //@   serves C01 C05 C07 C10 C11
 //@   loop range(req.ChildIEs):
 //@     modifies nothing
@@ -215,9 +227,11 @@ package pfcp
 //@     assert [recorded] val(req.URRID()) in s.URRIDs
 
 //@ func (s *Sess) UpdateURR(req *ie.IE) (usars []report.USAReport, err error)
-//@   requires sessWF(s) && book(s) && ieWF(req)
+//@   requires sessOK(s) && ieWF(req)
 //@   ensures [seqn]  forall u uint32 :: u in s.URRIDs ==> s.URRIDs[u].SEQN == old(s.URRIDs[u].SEQN) && s.URRIDs[u].refPdrNum == old(s.URRIDs[u].refPdrNum)
+//@   ensures [ok]    sessOK(s)
 //@   modifies s.URRIDs[_].DURAT, s.URRIDs[_].VOLUM, s.URRIDs[_].EVENT, s.URRIDs[_].MBQE, s.URRIDs[_].INAM, s.URRIDs[_].RADI, s.URRIDs[_].ISTM, s.URRIDs[_].MNOP
+//@   reveal sessOK
 //@   serves C01 C05 C07
 //@   loop range(req.ChildIEs):
 //@     modifies s.URRIDs[_].DURAT, s.URRIDs[_].VOLUM, s.URRIDs[_].EVENT, s.URRIDs[_].MBQE, s.URRIDs[_].INAM, s.URRIDs[_].RADI, s.URRIDs[_].ISTM, s.URRIDs[_].MNOP
@@ -226,9 +240,8 @@ package pfcp
 //@     assert [seid] arg0 == s.LocalID && arg1 == req
 
 //@ func (s *Sess) RemoveURR(req *ie.IE) (usars []report.USAReport, err error)
-//@   requires sessWF(s) && book(s) && req != nil
-//@   ensures [book]  book(s)
-//@   ensures [wf]    sessWF(s)
+//@   requires sessOK(s) && req != nil
+//@   ensures [ok]    sessOK(s)
 //@   ensures [gone]  ok(req.URRID()) && val(req.URRID()) in s.URRIDs ==> !(RuleKey(s.LocalID, 4, uint64(val(req.URRID()))) in DP)
 //@   ensures [sub]   forall k RuleKey :: k in DP ==> k in old(DP)
 //@   ensures [isol]  forall k RuleKey :: k.seid != s.LocalID ==> ((k in DP) == (k in old(DP)))
@@ -237,6 +250,7 @@ package pfcp
 //@   ensures [errnil] err != nil ==> usars == nil
 //@   ensures [freshres] usars == nil || fresh(usars)
 //@   modifies s.URRIDs[_].removed, DP
+//@   reveal sessOK
 //@   serves C01 C05 C07 C12
 //@   loop range(usars):
 //@     modifies usars[_]
@@ -245,11 +259,13 @@ package pfcp
 //@     assert [seid] arg0 == s.LocalID && arg1 == req
 
 //@ func (s *Sess) QueryURR(req *ie.IE) (usars []report.USAReport, err error)
-//@   requires sessWF(s) && book(s) && req != nil
+//@   requires sessOK(s) && req != nil
 //@   ensures [immer] err == nil ==> (forall j int :: 0 <= j && j < len(usars) ==> usars[j].USARTrigger.Flags & report.USAR_TRIG_IMMER != 0)
 //@   ensures [errnil] err != nil ==> usars == nil
 //@   ensures [freshres] usars == nil || fresh(usars)
+//@   ensures [ok]    sessOK(s)
 //@   modifies nothing
+//@   reveal sessOK
 //@   serves C01 C05 C07 C12
 //@   loop range(usars):
 //@     modifies usars[_]
@@ -258,14 +274,16 @@ package pfcp
 //@     assert [seid] arg0 == s.LocalID && arg1 == val(req.URRID())
 
 //@ func (s *Sess) diassociateURR(urrid uint32) (usars []report.USAReport)
-//@   requires sessWF(s) && book(s)
+//@   requires sessOK(s)
 //@   ensures [absent]  !(urrid in s.URRIDs) ==> usars == nil
 //@   ensures [dec]     urrid in s.URRIDs && old(s.URRIDs[urrid].refPdrNum) > 0 ==> s.URRIDs[urrid].refPdrNum == old(s.URRIDs[urrid].refPdrNum) - 1
 //@   ensures [zero]    urrid in s.URRIDs && old(s.URRIDs[urrid].refPdrNum) == 0 ==> s.URRIDs[urrid].refPdrNum == 0
 //@   ensures [notlast] urrid in s.URRIDs && old(s.URRIDs[urrid].refPdrNum) != 1 ==> usars == nil
 //@   ensures [termr]   forall j int :: 0 <= j && j < len(usars) ==> usars[j].USARTrigger.Flags & report.USAR_TRIG_TERMR != 0
 //@   ensures [freshres] usars == nil || fresh(usars)
+//@   ensures [ok]    sessOK(s)
 //@   modifies s.URRIDs[urrid].refPdrNum
+//@   reveal sessOK
 //@   serves C01 C05 C07 C12
 //@   loop range(usars):
 //@     modifies usars[_]
@@ -275,23 +293,25 @@ package pfcp
 //@     assert [last] old(s.URRIDs[urrid].refPdrNum) == 1
 
 //@ func (s *Sess) URRSeq(urrid uint32) (seq uint32)
-//@   requires sessWF(s)
+//@   requires sessOK(s)
 //@   ensures [known]   urrid in s.URRIDs ==> seq == old(s.URRIDs[urrid].SEQN) && s.URRIDs[urrid].SEQN == seq + 1
 //@   ensures [unknown] !(urrid in s.URRIDs) ==> seq == 0
+//@   ensures [ok]    sessOK(s)
 //@   modifies s.URRIDs[urrid].SEQN
+//@   reveal sessOK
 //@   serves C11 C05 C07
 
 // A-PDRID: the PDR id the session layer computes from a Create/Update PDR IE (last decodable PDR-ID child) is the
 // id under which the driver installs the rule (pdrIdOf, see internal/forwarder contracts).
 //@ func (s *Sess) CreatePDR(req *ie.IE) (err error)
-//@   requires sessWF(s) && book(s) && req != nil
-//@   ensures [book]  book(s)
-//@   ensures [wf]    sessWF(s)
+//@   requires sessOK(s) && req != nil
+//@   ensures [ok]    sessOK(s)
 //@   ensures [isol]  forall k RuleKey :: k.seid != s.LocalID ==> ((k in DP) == (k in old(DP)))
 //@   ensures [sup]   forall k RuleKey :: k in old(DP) ==> k in DP
 //@   ensures [mono]  forall id uint16 :: id in old(s.PDRIDs) ==> id in s.PDRIDs
 //@   ensures [pf]    !ok(req.CreatePDR()) ==> err != nil && DP == old(DP) && CREATED == old(CREATED)
 //@   modifies s.PDRIDs[_], s.URRIDs[_].refPdrNum, DP, CREATED
+//@   reveal sessOK
 //@   serves C01 C05 C07
 //@   loop range(ies):
 //@     modifies s.URRIDs[_].refPdrNum, urrids[_]
@@ -302,12 +322,12 @@ package pfcp
 //@     assert [recorded] pdrid in s.PDRIDs
 
 //@ func (s *Sess) UpdatePDR(req *ie.IE) (usars []report.USAReport, err error)
-//@   requires sessWF(s) && book(s) && req != nil
-//@   ensures [book]  book(s)
-//@   ensures [wf]    sessWF(s)
+//@   requires sessOK(s) && req != nil
+//@   ensures [ok]    sessOK(s)
 //@   ensures [dp]    DP == old(DP)
 //@   ensures [termr] forall j int :: 0 <= j && j < len(usars) ==> usars[j].USARTrigger.Flags & report.USAR_TRIG_TERMR != 0
 //@   modifies s.PDRIDs[_].RelatedURRIDs, s.URRIDs[_].refPdrNum
+//@   reveal sessOK
 //@   serves C01 C05 C07 C12
 //@   loop range(ies):
 //@     modifies newUrrids[_]
@@ -320,9 +340,8 @@ package pfcp
 //@     assert [seid]    arg0 == s.LocalID && arg1 == req
 
 //@ func (s *Sess) RemovePDR(req *ie.IE) (usars []report.USAReport, err error)
-//@   requires sessWF(s) && book(s) && req != nil
-//@   ensures [book]  book(s)
-//@   ensures [wf]    sessWF(s)
+//@   requires sessOK(s) && req != nil
+//@   ensures [ok]    sessOK(s)
 //@   ensures [gone]  ok(req.PDRID()) && val(req.PDRID()) in old(s.PDRIDs) ==> !(RuleKey(s.LocalID, 1, uint64(val(req.PDRID()))) in DP)
 //@   ensures [sub]   forall k RuleKey :: k in DP ==> k in old(DP)
 //@   ensures [isol]  forall k RuleKey :: k.seid != s.LocalID ==> ((k in DP) == (k in old(DP)))
@@ -330,9 +349,192 @@ package pfcp
 //@   ensures [del]   err == nil ==> !(val(req.PDRID()) in s.PDRIDs)
 //@   ensures [termr] forall j int :: 0 <= j && j < len(usars) ==> usars[j].USARTrigger.Flags & report.USAR_TRIG_TERMR != 0
 //@   modifies s.PDRIDs[_], s.URRIDs[_].refPdrNum, DP
+//@   reveal sessOK
 //@   serves C01 C05 C07 C12
 //@   loop range(pdrInfo.RelatedURRIDs):
 //@     modifies s.URRIDs[_].refPdrNum
 //@     invariant [termr] forall j int :: 0 <= j && j < len(usars) ==> usars[j].USARTrigger.Flags & report.USAR_TRIG_TERMR != 0
 //@   at call RemovePDR:
 //@     assert [seid] arg0 == s.LocalID && arg1 == req
+
+// ---------------------------------------------------------------------------------------------
+// Buffered packet queues (C13) and session close (C01, C05, C12, C13)
+
+
+//@ func (s *Sess) Close() (usars []report.USAReport)
+//@   requires sessOK(s)
+//@   ensures [withdrawn] forall k RuleKey :: k.seid == s.LocalID ==> !(k in DP)
+//@   ensures [others]    forall k RuleKey :: k.seid != s.LocalID ==> ((k in DP) == (k in old(DP)))
+//@   ensures [termr]     forall j int :: 0 <= j && j < len(usars) ==> usars[j].USARTrigger.Flags & report.USAR_TRIG_TERMR != 0
+//@   ensures [queues]    forall p uint16 :: p in s.q ==> closed(s.q[p])
+//@   modifies s.FARIDs[_], s.QERIDs[_], s.BARIDs[_], s.PDRIDs[_], s.URRIDs[_].removed, s.URRIDs[_].refPdrNum, DP, chans(s.q)
+//@   reveal sessOK
+//@   serves C01 C05 C07 C12 C13
+//@   loop range(s.FARIDs):
+//@     modifies s.FARIDs[_], DP
+//@     invariant [inv]   sessOK(s)
+//@     invariant [done]  forall id uint32 :: id in visited ==> !(RuleKey(s.LocalID, 2, uint64(id)) in DP)
+//@     invariant [isol]  forall k RuleKey :: k.seid != s.LocalID ==> ((k in DP) == (k in old(DP)))
+//@   loop range(s.QERIDs):
+//@     modifies s.QERIDs[_], DP
+//@     invariant [inv]   sessOK(s)
+//@     invariant [done]  forall id uint32 :: id in visited ==> !(RuleKey(s.LocalID, 3, uint64(id)) in DP)
+//@     invariant [prev]  forall k RuleKey :: k in DP && k.seid == s.LocalID ==> k.kind != 2
+//@     invariant [isol]  forall k RuleKey :: k.seid != s.LocalID ==> ((k in DP) == (k in old(DP)))
+//@   loop range(s.URRIDs):
+//@     modifies s.URRIDs[_].removed, DP
+//@     invariant [inv]   sessOK(s)
+//@     invariant [done]  forall id uint32 :: id in visited ==> !(RuleKey(s.LocalID, 4, uint64(id)) in DP)
+//@     invariant [prev]  forall k RuleKey :: k in DP && k.seid == s.LocalID ==> k.kind != 2 && k.kind != 3
+//@     invariant [isol]  forall k RuleKey :: k.seid != s.LocalID ==> ((k in DP) == (k in old(DP)))
+//@     invariant [termr] forall j int :: 0 <= j && j < len(usars) ==> usars[j].USARTrigger.Flags & report.USAR_TRIG_TERMR != 0
+//@   loop range(s.BARIDs):
+//@     modifies s.BARIDs[_], DP
+//@     invariant [inv]   sessOK(s)
+//@     invariant [done]  forall id uint8 :: id in visited ==> !(RuleKey(s.LocalID, 5, uint64(id)) in DP)
+//@     invariant [prev]  forall k RuleKey :: k in DP && k.seid == s.LocalID ==> k.kind != 2 && k.kind != 3 && k.kind != 4
+//@     invariant [isol]  forall k RuleKey :: k.seid != s.LocalID ==> ((k in DP) == (k in old(DP)))
+//@   loop range(s.PDRIDs):
+//@     modifies s.PDRIDs[_], s.URRIDs[_].refPdrNum, DP
+//@     invariant [inv]   sessOK(s)
+//@     invariant [done]  forall id uint16 :: id in visited ==> !(RuleKey(s.LocalID, 1, uint64(id)) in DP)
+//@     invariant [prev]  forall k RuleKey :: k in DP && k.seid == s.LocalID ==> k.kind != 2 && k.kind != 3 && k.kind != 4 && k.kind != 5
+//@     invariant [isol]  forall k RuleKey :: k.seid != s.LocalID ==> ((k in DP) == (k in old(DP)))
+//@     invariant [termr] forall j int :: 0 <= j && j < len(usars) ==> usars[j].USARTrigger.Flags & report.USAR_TRIG_TERMR != 0
+//@   loop range(s.q):
+//@     modifies chans(s.q)
+//@     invariant [closed] forall p uint16 :: p in s.q ==> (closed(s.q[p]) == (p in visited)) && s.q[p] != nil
+
+// Queue model: a channel holds the packets at buffer positions chhead(c) .. chtail(c)-1, oldest first.
+//@ func (s *Sess) Push(pdrid uint16, p []byte)
+//@   requires sessOK(s)
+//@   ensures [ok]    sessOK(s)
+//@   ensures [keys]  forall q uint16 :: q in s.q <==> (q in old(s.q) || q == pdrid)
+//@   ensures [same]  forall q uint16 :: q in old(s.q) ==> s.q[q] == old(s.q[q])
+//@   ensures [new]   !old(pdrid in s.q) ==> fresh(s.q[pdrid]) && cap(s.q[pdrid]) == s.qlen
+//@   ensures [head]  forall q uint16 :: q in old(s.q) ==> chhead(s.q[q]) == old(chhead(s.q[q]))
+//@   ensures [other] forall q uint16 :: q in old(s.q) && q != pdrid ==> chtail(s.q[q]) == old(chtail(s.q[q]))
+//@   ensures [fifo]  old(pdrid in s.q) && old(len(s.q[pdrid])) < old(cap(s.q[pdrid])) ==>
+//@                     chtail(s.q[pdrid]) == old(chtail(s.q[pdrid])) + 1 &&
+//@                     len(chat(s.q[pdrid], old(chtail(s.q[pdrid])))) == len(p) &&
+//@                     (forall j int :: 0 <= j && j < len(p) ==> chat(s.q[pdrid], old(chtail(s.q[pdrid])))[j] == p[j])
+//@   ensures [full]  old(pdrid in s.q) && old(len(s.q[pdrid])) >= old(cap(s.q[pdrid])) ==> chtail(s.q[pdrid]) == old(chtail(s.q[pdrid]))
+//@   ensures [kept]  forall q uint16; i int :: q in old(s.q) && old(chhead(s.q[q])) <= i && i < old(chtail(s.q[q])) ==> chat(s.q[q], i) == old(chat(s.q[q], i))
+//@   modifies s.q[_], chans(s.q)
+//@   reveal sessOK
+//@   serves C13 C05 C07
+
+//@ func (s *Sess) Len(pdrid uint16) (n int)
+//@   requires sessOK(s)
+//@   ensures [len]    pdrid in s.q ==> n == len(s.q[pdrid])
+//@   ensures [absent] !(pdrid in s.q) ==> n == 0
+//@   modifies nothing
+//@   reveal sessOK
+//@   serves C13 C07
+
+//@ func (s *Sess) Pop(pdrid uint16) (pkt []byte, ok bool)
+//@   requires sessOK(s)
+//@   ensures [ok]     sessOK(s)
+//@   ensures [absent] !(pdrid in s.q) ==> !ok && pkt == nil
+//@   ensures [headel] pdrid in s.q && old(len(s.q[pdrid])) != 0 ==> ok && pkt == old(chat(s.q[pdrid], chhead(s.q[pdrid]))) &&
+//@                      chhead(s.q[pdrid]) == old(chhead(s.q[pdrid])) + 1 && chtail(s.q[pdrid]) == old(chtail(s.q[pdrid]))
+//@   ensures [empty]  pdrid in s.q && old(len(s.q[pdrid])) == 0 ==> !ok && chhead(s.q[pdrid]) == old(chhead(s.q[pdrid])) && chtail(s.q[pdrid]) == old(chtail(s.q[pdrid]))
+//@   ensures [others] forall q uint16 :: q in s.q && q != pdrid ==> chhead(s.q[q]) == old(chhead(s.q[q])) && chtail(s.q[q]) == old(chtail(s.q[q]))
+//@   ensures [kept]   forall q uint16; i int :: q in s.q ==> chat(s.q[q], i) == old(chat(s.q[q], i))
+//@   modifies chans(s.q)
+//@   reveal sessOK
+//@   serves C13 C05 C07
+
+// ---------------------------------------------------------------------------------------------
+// Nodes: sessions per control-plane node, session release
+
+
+// dpLive(n): every rule in the data plane, and every recorded creation, belongs to a live session
+//@ pred dpLive(n *LocalNode) = (forall k RuleKey :: k in DP ==> live(n, k.seid)) && (forall k RuleKey :: k in CREATED ==> live(n, k.seid))
+
+//@ pred nodeWF(rn *RemoteNode) = rn != nil && rn.local != nil && rn.sess != nil && rn.driver != nil && rn.addr != nil
+
+//@ func (n *LocalNode) DeleteSess(lSeid uint64) (usars []report.USAReport, err error)
+//@   requires n != nil && lnodeWF(n) && (live(n, lSeid) ==> sessOK(n.sess[lSeid-1]))
+//@   ensures [nf]     !old(live(n, lSeid)) ==> err != nil && usars == nil && DP == old(DP) && CREATED == old(CREATED)
+//@   ensures [del]    old(live(n, lSeid)) ==> err == nil
+//@   ensures [gone]   !live(n, lSeid)
+//@   ensures [others] forall id uint64 :: id != lSeid ==> (live(n, id) == old(live(n, id))) && (old(live(n, id)) ==> n.sess[id-1] == old(n.sess[id-1]))
+//@   ensures [clean]  old(live(n, lSeid)) ==> (forall k RuleKey :: k.seid == lSeid ==> !(k in DP) && !(k in CREATED))
+//@   ensures [isol]   forall k RuleKey :: k.seid != lSeid ==> ((k in DP) == (k in old(DP))) && ((k in CREATED) == (k in old(CREATED)))
+//@   ensures [termr]  forall j int :: 0 <= j && j < len(usars) ==> usars[j].USARTrigger.Flags & report.USAR_TRIG_TERMR != 0
+//@   ensures [wf]     lnodeWF(n)
+//@   modifies n.free, n.sess[_], DP, CREATED,
+//@            n.sess[lSeid-1].FARIDs[_], n.sess[lSeid-1].QERIDs[_], n.sess[lSeid-1].BARIDs[_], n.sess[lSeid-1].PDRIDs[_],
+//@            n.sess[lSeid-1].URRIDs[_].removed, n.sess[lSeid-1].URRIDs[_].refPdrNum, chans(n.sess[lSeid-1].q)
+//@   reveal sessOK
+//@   serves C01 C04 C05 C07 C12 C13
+//@   cases zero: lSeid == 0 | low: 0 < lSeid && lSeid < 1<<63 | edge: lSeid == 1<<63 | hi: lSeid > 1<<63
+//@   after call Close:
+//@     set CREATED := restrict(CREATED, forall k RuleKey :: k.seid != lSeid)
+
+//@ func NewRemoteNode(id string, addr net.Addr, local *LocalNode, driver forwarder.Driver, log *logrus.Entry) (n *RemoteNode)
+//@   ensures [init] fresh(n) && n.ID == id && n.addr == addr && n.local == local && n.driver == driver && fresh(n.sess) && len(n.sess) == 0
+//@   modifies nothing
+//@   serves C05
+
+//@ func (n *RemoteNode) Sess(lSeid uint64) (sess *Sess, err error)
+//@   requires nodeWF(n) && lnodeWF(n.local)
+//@   ensures [found] err == nil ==> lSeid in n.sess && live(n.local, lSeid) && sess == n.local.sess[lSeid-1]
+//@   ensures [nf]    !(lSeid in n.sess) ==> err != nil && sess == nil
+//@   modifies nothing
+//@   serves C04 C05
+
+//@ func (n *RemoteNode) NewSess(rSeid uint64) (s *Sess)
+//@   requires nodeWF(n) && lnodeWF(n.local) && dpLive(n.local)
+//@   ensures [fresh]  fresh(s) && s.RemoteID == rSeid && s.rnode == n && s.qlen == 512
+//@   ensures [id]     s.LocalID != 0 && (forall id uint64 :: id == s.LocalID ==> !old(live(n.local, id))) && live(n.local, s.LocalID) && n.local.sess[s.LocalID-1] == s
+//@   ensures [mine]   forall id uint64 :: id in n.sess <==> (id in old(n.sess) || id == s.LocalID)
+//@   ensures [others] forall id uint64 :: id != s.LocalID ==> (live(n.local, id) == old(live(n.local, id))) && (old(live(n.local, id)) ==> n.local.sess[id-1] == old(n.local.sess[id-1]))
+//@   ensures [ok]     sessOK(s)
+//@   ensures [wf]     lnodeWF(n.local) && dpLive(n.local)
+//@   modifies n.sess[_], n.local.sess, n.local.free, n.local.sess[_]
+//@   reveal sessOK
+//@   serves C04 C05 C01 C13
+
+//@ func (n *RemoteNode) DeleteSess(lSeid uint64) (usars []report.USAReport)
+//@   requires nodeWF(n) && lnodeWF(n.local) && (live(n.local, lSeid) ==> sessOK(n.local.sess[lSeid-1]))
+//@   ensures [notmine] !old(lSeid in n.sess) ==> usars == nil && DP == old(DP) && CREATED == old(CREATED) &&
+//@                       (forall id uint64 :: live(n.local, id) == old(live(n.local, id)))
+//@   ensures [mine]    old(lSeid in n.sess) ==> !live(n.local, lSeid) && (old(live(n.local, lSeid)) ==> (forall k RuleKey :: k.seid == lSeid ==> !(k in DP) && !(k in CREATED)))
+//@   ensures [keys]    forall id uint64 :: id in n.sess <==> (id in old(n.sess) && id != lSeid)
+//@   ensures [others]  forall id uint64 :: id != lSeid ==> (live(n.local, id) == old(live(n.local, id))) && (old(live(n.local, id)) ==> n.local.sess[id-1] == old(n.local.sess[id-1]))
+//@   ensures [isol]    forall k RuleKey :: k.seid != lSeid ==> ((k in DP) == (k in old(DP))) && ((k in CREATED) == (k in old(CREATED)))
+//@   ensures [termr]   forall j int :: 0 <= j && j < len(usars) ==> usars[j].USARTrigger.Flags & report.USAR_TRIG_TERMR != 0
+//@   ensures [wf]      lnodeWF(n.local)
+//@   modifies n.sess[_], n.local.free, n.local.sess[_], DP, CREATED,
+//@            n.local.sess[lSeid-1].FARIDs[_], n.local.sess[lSeid-1].QERIDs[_], n.local.sess[lSeid-1].BARIDs[_], n.local.sess[lSeid-1].PDRIDs[_],
+//@            n.local.sess[lSeid-1].URRIDs[_].removed, n.local.sess[lSeid-1].URRIDs[_].refPdrNum, chans(n.local.sess[lSeid-1].q)
+//@   serves C01 C04 C05 C07 C12
+
+// Separation between sessions (C05): distinct live sessions own distinct maps and queues.
+//@ pred sep2(a *Sess, b *Sess) = a.FARIDs != b.FARIDs && a.FARIDs != b.QERIDs && a.QERIDs != b.FARIDs && a.QERIDs != b.QERIDs &&
+//@      a.BARIDs != b.BARIDs && a.PDRIDs != b.PDRIDs && a.URRIDs != b.URRIDs && a.q != b.q &&
+//@      (forall p1 uint16; p2 uint16 :: p1 in a.q && p2 in b.q ==> a.q[p1] != b.q[p2])
+//@ pred allSessOK(n *LocalNode) =
+//@      (forall i int :: 0 <= i && i < len(n.sess) && n.sess[i] != nil ==> sessOK(n.sess[i])) &&
+//@      (forall i int; j int :: 0 <= i && i < j && j < len(n.sess) && n.sess[i] != nil && n.sess[j] != nil ==> sep2(n.sess[i], n.sess[j]))
+
+//@ func (n *RemoteNode) Reset()
+//@   requires nodeWF(n) && lnodeWF(n.local) && allSessOK(n.local)
+//@   ensures [gone]   forall id uint64 :: id in old(n.sess) ==> !live(n.local, id)
+//@   ensures [clean]  forall k RuleKey :: k in DP ==> k in old(DP) && !(k.seid in old(n.sess) && old(live(n.local, k.seid)))
+//@   ensures [others] forall id uint64 :: !(id in old(n.sess)) ==> (live(n.local, id) == old(live(n.local, id))) && (old(live(n.local, id)) ==> n.local.sess[id-1] == old(n.local.sess[id-1]))
+//@   ensures [isol]   forall k RuleKey :: !(k.seid in old(n.sess)) ==> ((k in DP) == (k in old(DP))) && ((k in CREATED) == (k in old(CREATED)))
+//@   ensures [empty]  fresh(n.sess) && len(n.sess) == 0
+//@   ensures [wf]     lnodeWF(n.local) && allSessOK(n.local)
+//@   modifies *
+//@   serves C01 C04 C05
+//@   loop range(n.sess):
+//@     invariant [wf]     nodeWF(n) && lnodeWF(n.local) && allSessOK(n.local)
+//@     invariant [same]   n.sess == old(n.sess) && n.local == old(n.local)
+//@     invariant [sub]    forall id uint64 :: id in n.sess ==> id in old(n.sess)
+//@     invariant [gone]   forall id uint64 :: id in old(n.sess) && !(id in n.sess) ==> !live(n.local, id)
+//@     invariant [clean]  forall k RuleKey :: k in DP ==> k in old(DP) && !(k.seid in old(n.sess) && !(k.seid in n.sess) && old(live(n.local, k.seid)))
+//@     invariant [others] forall id uint64 :: !(id in old(n.sess)) ==> (live(n.local, id) == old(live(n.local, id))) && (old(live(n.local, id)) ==> n.local.sess[id-1] == old(n.local.sess[id-1]))
+//@     invariant [isol]   forall k RuleKey :: !(k.seid in old(n.sess)) ==> ((k in DP) == (k in old(DP))) && ((k in CREATED) == (k in old(CREATED)))
